@@ -414,6 +414,19 @@ def run(ctx: Context) -> None:
     r10(ctx)
     r11(ctx)
     r12(ctx, sites)
+    # R13: the trigger stores themselves (shared with C16/R11, R12): a claim that could not be decided is an error, not a
+    # lost race; a reported occurrence is not dropped by a concurrent clean-up
+    from . import c16
+
+    ctx.rule("R13", "shared, over the trigger backends: no operation swallows a storage error (a claim that failed to execute is not answered 'lost'; C16/R11); the in-memory store is never rebuilt from an unlocked copy of itself (an occurrence recorded in between would vanish; C16/R12)")
+    flt = lambda c: "Trigger" in c.name  # noqa: E731
+    for fn in (c16.r11, c16.r12):
+        sub = Context("C16", ctx.repo, ctx.tier, ctx.seed)
+        sub._resolver = ctx._resolver
+        fn(sub, flt)
+        for i in sub.instances:
+            ctx.add("R13", i.key.split("/", 2)[2], i.ok, i.where, i.detail)
+    ctx.floor("R13", "trigger backend methods", ctx.count("R13"), 40)
     ctx.exhaustive = True
     ctx.not_decided += [
         "the cron window / minimum-interval / next-tick arithmetic against a brute-force schedule (numeric over runtime timestamps and croniter)",
